@@ -51,6 +51,8 @@ pub struct Knobs {
     pub other_seen: usize,
     /// (clock read number, mono jump ns, wall jump ns): applied just before that read
     pub clock_jump: Option<(u64, i128, i128)>,
+    /// the first n update-check attempts of the step fail in transit, whatever `uc` says
+    pub uc_fail_first: usize,
     /// forge the answer to the k-th request of the step
     pub forge: Option<Forge>,
     pub req_in_step: usize,
@@ -196,6 +198,7 @@ impl Default for Knobs {
             timing_min_wait: None,
             other_seen: 0,
             clock_jump: None,
+            uc_fail_first: 0,
             forge: None,
             req_in_step: 0,
             fault: Fault::default(),
@@ -268,6 +271,10 @@ impl Director for HistDirector {
         }
         match req.kind {
             ReqKind::UpdateCheck => {
+                if k.uc_fail_first > 0 {
+                    k.uc_fail_first -= 1;
+                    return HttpAns::Transport;
+                }
                 let h = k.uc_retry_after.clone();
                 match k.uc {
                     Uc::Transport => HttpAns::Transport,
